@@ -9,7 +9,7 @@ def nontrivial(p, line):
 
 
 def run(tier, seed):
-    return pipe.run_property("C03", tier, seed, ['hall', 'super'], PROPS,
+    return pipe.run_property("C03", tier, seed, ['hall', 'super', 'lowsym'], PROPS,
                              {"rule": 'every Hall setting x {own, re-described} x {Spglib, Standard} alternating, plus supercells; non-trivial when the setting is not P1 and the cell is re-described; an Err on these premise-satisfying inputs counts as a violation'},
                              nontrivial,
                              trusted=["premise validation of the generator (the generated crystal has exactly the generating group, symmetry gap >= 0.2 A) is a brute-force search in Rust, independent of moyo",
